@@ -377,5 +377,3 @@ Proof.
   eexists; reflexivity.
 Qed.
 
-Print Assumptions finish_total.
-Print Assumptions replay_wf.
